@@ -167,7 +167,8 @@ mk_case(long idx, struct case_s *c)
 static const char*
 base_class(char *buf, size_t bsz)
 {
-	snprintf(buf, bsz, "%s-v%d", B.sys ? "installed" : "synthetic", B.m.version);
+	/* versions 2 and 3 take the same path through the loader */
+	snprintf(buf, bsz, "%s", B.m.version >= 2 ? "v2+" : "v1");
 	return buf;
 }
 
@@ -345,6 +346,12 @@ main(int argc, char *argv[])
 	ex_init(argc, argv);
 	c19_init();
 	zc_wd_init();
+	/* shared counters are registered before any child exists */
+	c19_ctr_id("images");
+	c19_ctr_id("images_that_open");
+	c19_ctr_id("images_refused_cleanly");
+	c19_ctr_id("evaluations");
+	c19_ctr_id("lookups_that_do_not_return(counted, not reported)");
 
 	if (ex.cas) {
 		char name[300];
